@@ -71,7 +71,22 @@ class Layout:
             if r.chance(0.25):
                 open(os.path.join(self.home, "envh.conf"), "w").write(self.env_text)
                 self.env_value = "~/envh.conf"
-        elif x < 0.55:
+        elif x < 0.55 and (self.user_text is not None or self.texts):
+            # $DIPPY_CONFIG names a file that is already a layer (the user config, a project file), directly, via ~ or via a
+            # symlink: the layer is then read twice and its rules come last again
+            cands = []
+            if self.user_text is not None:
+                cands.append((os.path.join(self.home, ".dippy", "config"), self.user_text))
+                cands.append(("~/.dippy/config", self.user_text))
+            for pth, txt in self.texts.items():
+                cands.append((pth, txt))
+            pth, txt = r.pick(cands)
+            if r.chance(0.3) and not pth.startswith("~"):
+                link = os.path.join(self.root, "envlink.conf")
+                os.symlink(pth, link)
+                pth = link
+            self.env_value, self.env_text = pth, txt
+        elif x < 0.58:
             self.env_value = os.path.join(self.root, "missing.conf")
         elif x < 0.62:
             self.env_value = aux  # a directory
